@@ -136,7 +136,12 @@ func (w *c15World) apply(ev string) bool {
 	ctx := w.ctx
 	switch ev {
 	case "setrep":
-		if err := w.A.peer.SetReplicator(ctx, libpeer.AddrInfo{ID: w.B.host.ID()}); err != nil {
+		// the caller's context ends when the call returns (as for every HTTP or CLI request): whatever the
+		// call leaves running in the background must not depend on it
+		cctx, cancel := context.WithCancel(ctx)
+		err := w.A.peer.SetReplicator(cctx, libpeer.AddrInfo{ID: w.B.host.ID()})
+		cancel()
+		if err != nil {
 			w.errs = append(w.errs, "setrep: "+err.Error())
 		}
 	case "create", "create2":
